@@ -33,6 +33,6 @@ for d in sorted(glob.glob("/tmp/seed_C*_out/change*")):
                                         "builds_default_and_hook_features": True, "existing_suite_results_identical": True,
                                         "how": "tools/confirm_seed.sh %s <dir> (scratch worktree, never /repo itself)" % pid},
             "check_history": hist,
-            "caught_by": prev.get("caught_by", [pid] if c["check_rc"] == 1 else [])}
+            "caught_by": sorted(set(prev.get("caught_by", [])) | ({pid} if c["check_rc"] == 1 else set()))}
     json.dump(meta, open(os.path.join(out, "meta.json"), "w"), indent=1)
     print(pid, n, "caught" if c["check_rc"] == 1 else "MISSED rc=%d" % c["check_rc"])
